@@ -17,17 +17,18 @@ Local Open Scope Z_scope.
 (* index ranges 0 .. n-1 in increasing order (new_index / incr loops) *)
 Definition zrange (n : Z) : list Z := map Z.of_nat (seq 0 (Z.to_nat n)).
 
-Definition ix2 := (Z * Z)%type.
-Definition ix3 := (Z * Z * Z)%type.
+Notation ix2 := (Z * Z)%type (only parsing).
+Notation ix3 := (Z * Z * Z)%type (only parsing).
 Definition ix2_eqb (a b : ix2) : bool := (fst a =? fst b) && (snd a =? snd b).
 Definition ix3_eqb (a b : ix3) : bool :=
   (fst (fst a) =? fst (fst b)) && (snd (fst a) =? snd (fst b)) && (snd a =? snd b).
 Definition upd2 {V} (g : ix2 -> V) (k : ix2) (v : V) : ix2 -> V := fun q => if ix2_eqb q k then v else g q.
 Definition upd3 {V} (g : ix3 -> V) (k : ix3) (v : V) : ix3 -> V := fun q => if ix3_eqb q k then v else g q.
 
-(* colvar_grid::wrap / wrap_detect_edge, one dimension: (ix + nx) % nx (C++ truncating remainder)
-   if periodic; otherwise the index is left alone and reported as an edge when out of range *)
-Definition wrap1 (per : bool) (n i : Z) : Z := if per then Z.rem (i + n) n else i.
+(* colvar_grid::wrap / wrap_detect_edge, one dimension: ((ix % nx) + nx) % nx with the C++ truncating
+   remainder, i.e. the mathematical modulo, if periodic; otherwise the index is left alone and reported
+   as an edge when out of range *)
+Definition wrap1 (per : bool) (n i : Z) : Z := if per then Z.rem (Z.rem i n + n) n else i.
 Definition edge1 (per : bool) (n i : Z) : bool := if per then false else (i <? 0) || (n <=? i).
 (* size of the PMF grid along a dimension whose gradient grid has n points (one extra point if not periodic) *)
 Definition npmf (per : bool) (n : Z) : Z := if per then n else n + 1.
@@ -251,24 +252,21 @@ Section Integrate.
       (wrap1 (qx sh) (npmf (qx sh) (mxg sh)) (i3x ix), wrap1 (qy sh) (npmf (qy sh) (myg sh)) (i3y ix),
        wrap1 (qz sh) (npmf (qz sh) (mzg sh)) (i3z ix)).
 
-    (* update_div_neighbors(ix0), nd == 3: wrap(ix); update_div_local(ix); ix[2]++ ... *)
+    (* update_div_neighbors(ix0), nd == 3: the three nested two-iteration loops on the state (divergence, ix).
+       innermost body:  wrap(ix); update_div_local(ix); ix[2]++ *)
+    Definition udn3_k (st : state3) (s : (ix3 -> T) * ix3) : (ix3 -> T) * ix3 :=
+      let ix := wrapP3 (snd s) in
+      (update_div_local3 st (fst s) ix, (i3x ix, i3y ix, i3z ix + 1)).
+    (* j body:  ix[2] = ix0[2]; for (k..) {...}; ix[1]++ *)
+    Definition udn3_j (st : state3) (ix0 : ix3) (s : (ix3 -> T) * ix3) : (ix3 -> T) * ix3 :=
+      let s := udn3_k st (udn3_k st (fst s, (i3x (snd s), i3y (snd s), i3z ix0))) in
+      (fst s, (i3x (snd s), i3y (snd s) + 1, i3z (snd s))).
+    (* i body:  ix[1] = ix0[1]; for (j..) {...}; ix[0]++ *)
+    Definition udn3_i (st : state3) (ix0 : ix3) (s : (ix3 -> T) * ix3) : (ix3 -> T) * ix3 :=
+      let s := udn3_j st ix0 (udn3_j st ix0 (fst s, (i3x (snd s), i3y ix0, i3z (snd s)))) in
+      (fst s, (i3x (snd s) + 1, i3y (snd s), i3z (snd s))).
     Definition update_div_neighbors3 (st : state3) (D : ix3 -> T) (ix0 : ix3) : ix3 -> T :=
-      let ix := wrapP3 (i3x ix0, i3y ix0, i3z ix0) in
-      let D := update_div_local3 st D ix in
-      let ix := wrapP3 (i3x ix, i3y ix, i3z ix + 1) in
-      let D := update_div_local3 st D ix in
-      let ix := wrapP3 (i3x ix, i3y ix + 1, i3z ix0) in
-      let D := update_div_local3 st D ix in
-      let ix := wrapP3 (i3x ix, i3y ix, i3z ix + 1) in
-      let D := update_div_local3 st D ix in
-      let ix := wrapP3 (i3x ix + 1, i3y ix0, i3z ix0) in
-      let D := update_div_local3 st D ix in
-      let ix := wrapP3 (i3x ix, i3y ix, i3z ix + 1) in
-      let D := update_div_local3 st D ix in
-      let ix := wrapP3 (i3x ix, i3y ix + 1, i3z ix0) in
-      let D := update_div_local3 st D ix in
-      let ix := wrapP3 (i3x ix, i3y ix, i3z ix + 1) in
-      update_div_local3 st D ix.
+      fst (udn3_i st ix0 (udn3_i st ix0 (D, ix0))).
 
     Definition all_ix3 : list ix3 :=
       flat_map (fun i => flat_map (fun j => map (fun k => (i, j, k)) (zrange (npmf (qz sh) (mzg sh))))
